@@ -257,6 +257,9 @@ func (s *Stream) Multicastable() Multicastable {
 
 // Hlsable 返回支持hls能力，不支持返回nil
 func (s *Stream) Hlsable() Hlsable {
+	if s.hlsPlaylist == nil { // 避免返回持有 nil 指针的非 nil 接口
+		return nil
+	}
 	return s.hlsPlaylist
 }
 
